@@ -103,6 +103,9 @@ func RunC04M3(c *core.Ctx, idx int) {
 				for it.HasNext() {
 					it.GetNext()
 				}
+				if k%8 == 0 {
+					_ = fmt.Sprint(q) // String()
+				}
 				runtime.Gosched()
 			}
 		})
